@@ -444,12 +444,12 @@ Section Proto.
           (* the context of a send for which a payment proof was requested is never an invoice
              issuer's: an Invoice2-labelled reply for it is a slate in the wrong state (a [fix:]
              for C11; before it the branch below ran without any proof check) *)
-          match cx_pp_index c with
-          | Some _ => (w, Err ESlateState)
-          | None =>
-          match finalize_core w r c true with
-          | Ok (w', t) => (w', Ok t) | Err e => (w, Err e) | Panic q => (w, Panic q)
-          end
+          match cx_pp_index c, cx_late c with
+          | None, None =>
+            match finalize_core w r c true with
+            | Ok (w', t) => (w', Ok t) | Err e => (w, Err e) | Panic q => (w, Panic q)
+            end
+          | _, _ => (w, Err ESlateState)   (* ... nor is a late-locked send's (a [fix:] for C12) *)
           end
         | StS2 =>
           if has_inputs r then (w, Err EGeneric)
